@@ -151,3 +151,20 @@ package responseassembler
 //@   ensures builder.Builder.blkSize == old(builder.Builder.blkSize) + SeqSum(operations, len(operations), opSizeOf)
 //@   loop 1 invariant builder.Builder.blkSize == old(builder.Builder.blkSize) + SeqSum(operations, idx1, opSizeOf)
 //@   use seqsum_step(operations, idx1, opSizeOf)
+
+//@ -- ============================ C03: what a response builder queues for one traversed link / for the end ============================
+//@ -- every SendResponse queues exactly one block operation, after everything queued before, carrying the link, the bytes
+//@ -- (nil: the link could not be loaded), this request's ID, and the send decision and index of the link tracker
+//@ pred opsKept(rb *responseBuilder, n int) := len(rb.operations) == n + 1 && (forall j int :: 0 <= j && j < n ==> rb.operations[j] == old(rb.operations[j]))
+//@ func responseBuilder.setupBlockOperation
+//@   requires rb != nil && rb.linkTracker != nil && invPLT(rb.linkTracker)
+//@   modifies alloc, ltMissed, rb.linkTracker.blockSentCount[*],
+//@            trk(rb.linkTracker, rb.requestID).missingBlocks[*], trk(rb.linkTracker, rb.requestID).linksWithBlocksTraversedByRequest[*],
+//@            trk(rb.linkTracker, rb.requestID).traversalsWithBlocksInProgress[*], allmaps(trk(rb.linkTracker, rb.requestID).missingBlocks[rb.requestID])
+//@   ensures invPLT(rb.linkTracker)
+//@   ensures result.data == data && result.link == link && result.requestID == rb.requestID
+//@   ensures let n := old(ite(rb.requestID in rb.linkTracker.blockSentCount, rb.linkTracker.blockSentCount[rb.requestID], 0)) + 1 ::
+//@           let skip := old(ite(rb.requestID in rb.linkTracker.skipFirstBlocks, rb.linkTracker.skipFirstBlocks[rb.requestID], 0)) ::
+//@           result.index == n && result.sendBlock == (len(data) > 0 && skip < n && old(rc(trk(rb.linkTracker, rb.requestID), link)) == 0)
+//@   -- (nil-ness of a byte slice is modelled by len == 0, as everywhere in the engine)
+//@   ensures len(data) == 0 ==> !result.sendBlock && ltMissed[trk(rb.linkTracker, rb.requestID)][rb.requestID]
